@@ -348,7 +348,10 @@ class CallListerVisitor(ast.NodeVisitor):
         for arg in node.args + [
                 kw.value for kw in node.keywords if kw.arg is not None]:
             if isinstance(arg, ast.Name):
-                self.visit_Name(arg)
+                # only the enclosing function's own arguments: other names
+                # are still to be resolved when the call is processed
+                if isinstance(self.namespace.get(arg.id, None), Arg):
+                    self.visit_Name(arg)
             elif isinstance(arg, ast.Call):
                 self.expose_nested_Call(arg)
 
